@@ -332,12 +332,85 @@ func computeAliases(p *load.Program) {
 	}
 	aliasesFor = p
 	astx.Alias = map[types.Object]ast.Expr{}
+	// fields written by each module function, directly and through its static callees (for aliases of field reads)
+	direct := map[*load.FuncInfo]map[*types.Var]bool{}
+	calls := map[*load.FuncInfo][]*load.FuncInfo{}
+	for _, fi := range p.AllFuncs {
+		if fi.Body() == nil {
+			continue
+		}
+		info := fi.Info()
+		w := map[*types.Var]bool{}
+		note := func(l ast.Expr) {
+			for {
+				switch t := ast.Unparen(l).(type) {
+				case *ast.SelectorExpr:
+					if fv := astx.FieldSel(info, t); fv != nil {
+						w[fv] = true
+					}
+					return
+				case *ast.IndexExpr:
+					l = t.X
+					continue
+				case *ast.StarExpr:
+					l = t.X
+					continue
+				}
+				return
+			}
+		}
+		ast.Inspect(fi.Node(), func(n ast.Node) bool {
+			switch x := n.(type) {
+			case *ast.AssignStmt:
+				for _, l := range x.Lhs {
+					note(l)
+				}
+			case *ast.IncDecStmt:
+				note(x.X)
+			case *ast.CallExpr:
+				if fn := astx.Callee(info, x); fn != nil {
+					if cal := p.FuncOf(fn); cal != nil {
+						calls[fi] = append(calls[fi], cal)
+					}
+				}
+			}
+			return true
+		})
+		direct[fi] = w
+	}
+	writes := map[*load.FuncInfo]map[*types.Var]bool{}
+	for fi, w := range direct {
+		m := map[*types.Var]bool{}
+		for k := range w {
+			m[k] = true
+		}
+		writes[fi] = m
+	}
+	for changed := true; changed; {
+		changed = false
+		for fi, cs := range calls {
+			for _, cal := range cs {
+				for k := range writes[cal] {
+					if !writes[fi][k] {
+						if writes[fi] == nil {
+							writes[fi] = map[*types.Var]bool{}
+						}
+						writes[fi][k] = true
+						changed = true
+					}
+				}
+			}
+		}
+	}
 	for _, fi := range p.AllFuncs {
 		body := fi.Body()
 		if body == nil {
 			continue
 		}
 		info := fi.Info()
+		fieldDeps := map[types.Object][]*types.Var{} // candidate alias -> mutable module fields its definition reads
+		var curDeps []*types.Var
+		otherDefs := map[types.Object]int{}
 		defs := map[types.Object][]ast.Expr{} // := / var definitions with a 1:1 value
 		unstable := map[types.Object]bool{}   // reassigned, inc/dec'd, address taken, multi-value defined
 		rangeVar := map[types.Object]bool{}
@@ -376,7 +449,7 @@ func computeAliases(p *load.Program) {
 						if len(x.Lhs) == len(x.Rhs) {
 							defs[o] = append(defs[o], x.Rhs[i])
 						} else {
-							unstable[o] = true
+							otherDefs[o]++ // one of several results (comma-ok, multi-value call): defined once, no 1:1 expression
 						}
 						continue
 					}
@@ -431,7 +504,10 @@ func computeAliases(p *load.Program) {
 				return true
 			}
 			if d, ok := defs[o]; ok {
-				return len(d) == 1
+				return len(d) == 1 && otherDefs[o] == 0
+			}
+			if otherDefs[o] > 0 {
+				return otherDefs[o] == 1
 			}
 			// parameter / receiver / named result: stable when never assigned (named results are assigned by returns: exclude)
 			return o.Pos() < body.Pos()
@@ -466,7 +542,18 @@ func computeAliases(p *load.Program) {
 					return isConst
 				}
 				fv := astx.FieldSel(info, x)
-				return isIrcMessageField(fv) && !fieldWritten[fv] && !elemWritten[fv] && stable(x.X, depth+1)
+				if isIrcMessageField(fv) {
+					return !fieldWritten[fv] && !elemWritten[fv] && stable(x.X, depth+1)
+				}
+				// a scalar field of a module struct (s.Nick): stable only if nothing can write it between the definition
+				// and any use — checked on the CFG below, recorded here
+				if fv != nil && fv.Pkg() != nil && strings.HasPrefix(fv.Pkg().Path(), load.ModPath) {
+					if _, isBasic := fv.Type().Underlying().(*types.Basic); isBasic && stable(x.X, depth+1) {
+						curDeps = append(curDeps, fv)
+						return true
+					}
+				}
+				return false
 			case *ast.IndexExpr:
 				tv, ok := info.Types[x.X]
 				if !ok {
@@ -517,8 +604,107 @@ func computeAliases(p *load.Program) {
 			if len(d) != 1 || unstable[o] || !isLocal(o) || d[0] == nil {
 				continue
 			}
+			curDeps = nil
 			if stable(d[0], 0) {
 				astx.Alias[o] = d[0]
+				if len(curDeps) > 0 {
+					fieldDeps[o] = append([]*types.Var{}, curDeps...)
+				}
+			}
+		}
+		if len(fieldDeps) == 0 {
+			continue
+		}
+		// flow check: from the definition of the alias, no statement that can write one of the fields it reads is reachable
+		g := cfgx.New(fi.Name(), body, info)
+		writesField := func(n ast.Node, fv *types.Var) bool {
+			hit := false
+			ast.Inspect(n, func(m ast.Node) bool {
+				switch x := m.(type) {
+				case *ast.AssignStmt:
+					for _, l := range x.Lhs {
+						e := l
+						for {
+							switch t := ast.Unparen(e).(type) {
+							case *ast.SelectorExpr:
+								if astx.FieldSel(info, t) == fv {
+									hit = true
+								}
+							case *ast.IndexExpr:
+								e = t.X
+								continue
+							case *ast.StarExpr:
+								e = t.X
+								continue
+							}
+							break
+						}
+					}
+				case *ast.IncDecStmt:
+					if se, ok := ast.Unparen(x.X).(*ast.SelectorExpr); ok && astx.FieldSel(info, se) == fv {
+						hit = true
+					}
+				case *ast.CallExpr:
+					if fn := astx.Callee(info, x); fn != nil {
+						if cal := p.FuncOf(fn); cal != nil && writes[cal][fv] {
+							hit = true
+						}
+					} else if astx.Builtin(info, x) == "" {
+						if tv, ok := info.Types[x.Fun]; !ok || !tv.IsType() {
+							hit = true // a dynamic call: unknown effects
+						}
+					}
+				case *ast.FuncLit:
+					return false
+				}
+				return true
+			})
+			return hit
+		}
+		for o, deps := range fieldDeps {
+			// the defining statement
+			dv := -1
+			for _, v := range g.Nodes() {
+				switch x := v.Node.(type) {
+				case *ast.AssignStmt:
+					for _, l := range x.Lhs {
+						if id, ok := l.(*ast.Ident); ok && info.Defs[id] == o {
+							dv = v.ID
+						}
+					}
+				case *ast.DeclStmt:
+					ast.Inspect(x, func(m ast.Node) bool {
+						if id, ok := m.(*ast.Ident); ok && info.Defs[id] == o {
+							dv = v.ID
+						}
+						return true
+					})
+				}
+			}
+			ok := dv >= 0
+			if ok {
+				reach := map[int]bool{}
+				for _, e := range g.V[dv].Succ {
+					for k, b := range g.Reach(e.To, nil, nil) {
+						if b {
+							reach[k] = true
+						}
+					}
+					reach[e.To] = true
+				}
+				for _, v := range g.Nodes() {
+					if !reach[v.ID] || v.Node == nil {
+						continue
+					}
+					for _, fv := range deps {
+						if writesField(v.Node, fv) {
+							ok = false
+						}
+					}
+				}
+			}
+			if !ok {
+				delete(astx.Alias, o)
 			}
 		}
 	}
